@@ -1394,6 +1394,9 @@ class Session:
             self.pairing_result.set_exception(error)
         self.manager.on_pairing_failure(self, reason)
 
+        # The session is over: a later pairing attempt must start from a new one
+        self.manager.on_session_end(self)
+
     def on_smp_command(self, command: SMP_Command) -> None:
         try:
             match command:
